@@ -131,14 +131,14 @@ fn layout_script(p: &mut Prng) -> String {
         let reps = if env.decls[i].generic() { 2 } else { 1 };
         for _ in 0..reps {
             let t = if env.decls[i].generic() {
-                T::Named(i, vec![gen_type(p, &env, 1, false, &o)])
+                T::Named(i, (0..env.decls[i].nparams()).map(|_| gen_type(p, &env, 1, 0, &o)).collect())
             } else {
                 T::Named(i, vec![])
             };
             let t = match p.below(6) {
                 0 => T::Opt(Box::new(t)),
-                1 => T::Res(Box::new(t), Box::new(gen_type(p, &env, 1, false, &o))),
-                2 => T::Verdict(Box::new(gen_type(p, &env, 1, false, &o)), Box::new(t)),
+                1 => T::Res(Box::new(t), Box::new(gen_type(p, &env, 1, 0, &o))),
+                2 => T::Verdict(Box::new(gen_type(p, &env, 1, 0, &o)), Box::new(t)),
                 _ => t,
             };
             let ts = t.src(&env);
@@ -176,7 +176,7 @@ fn layout_script(p: &mut Prng) -> String {
         j += 1;
     }
     for d in &env.decls {
-        if let Decl::Enum { name, generic: true, variants } = d {
+        if let Decl::Enum { name, generic: 1.., variants } = d {
             for (v, ts) in variants {
                 if ts.is_empty() && p.chance(2, 3) {
                     s += &format!("    let n{j} = {name}.{v};\n");
